@@ -194,10 +194,19 @@ static uint32_t mus2mid_getdstpos(struct mus_ctx *ctx) {
     return (uint32_t)(ctx->dst_ptr - ctx->dst);
 }
 
-/* writes a variable length integer to a buffer, and returns bytes written */
+/* the largest value a variable length integer of a MIDI file holds (four 7-bit groups) */
+#define MUS_MAX_VARLEN 0x0FFFFFFF
+
+/* writes a variable length integer to a buffer, and returns bytes written (four at most) */
 static int32_t mus2mid_writevarlen(int32_t value, uint8_t *out)
 {
-    int32_t buffer, count = 0;
+    uint32_t buffer;
+    int32_t count = 0;
+
+    if (value < 0)
+        value = 0;
+    if (value > MUS_MAX_VARLEN)
+        value = MUS_MAX_VARLEN; /* a fifth group would push the last byte out of the buffer */
 
     buffer = value & 0x7f;
     while ((value >>= 7) > 0) {
@@ -441,7 +450,9 @@ static int Convert_mus2midi(uint8_t *in, uint32_t insize,
             delta_time = 0;
             do {
                 if (cur >= end) goto _end; /* truncated score */
-                delta_time = (int32_t)((delta_time * 128 + (*cur & 127)) * (140.0 / (double)frequency));
+                double scaled = ((double)delta_time * 128.0 + (*cur & 127)) * (140.0 / (double)frequency);
+                /* a delay of any number of groups: keep what a MIDI file can store */
+                delta_time = (scaled < (double)MUS_MAX_VARLEN) ? (int32_t)scaled : MUS_MAX_VARLEN;
             } while ((*cur++ & 128));
         } else {
             delta_time = 0;
